@@ -312,6 +312,15 @@ func invalidPayload(s *Stream, h *History) []byte {
 		// the server-id field of the malformed packet names the replica itself
 		p[5], p[6], p[7], p[8] = byte(h.replicaID), byte(h.replicaID>>8), byte(h.replicaID>>16), byte(h.replicaID>>24)
 	}
+	if len(p) >= 19 && s.Chance(1, 6) {
+		// header fields that make the packet look like one of the dump thread's own
+		// fabrications: next_position 0 and the artificial / ignorable / in-use flags
+		p[13], p[14], p[15], p[16] = 0, 0, 0, 0
+		p[17], p[18] = []byte{0x20, 0x20, 0x80, 0x01, 0xa0, 0xff}[s.N(6)], 0
+		if s.Chance(1, 3) {
+			p[0], p[1], p[2], p[3] = 0, 0, 0, 0 // timestamp 0 as well
+		}
+	}
 	// whatever the class, the payload must fail the validity predicate
 	if len(p) >= 19 {
 		if l := uint32(p[9]) | uint32(p[10])<<8 | uint32(p[11])<<16 | uint32(p[12])<<24; l == uint32(len(p)) {
